@@ -314,9 +314,12 @@ class Den:
                 else:
                     return
             try:
-                pos += index(next(steps))
+                st = next(steps)
             except StopIteration:
                 return
+            if type(st) is Fraction:
+                raise OutOfDomain()     # a float step makes `pos` a float: documented for int steps only
+            pos += index(st)
 
     # ---- value patterns ----
     def scan(self, op, start, step, length):
